@@ -228,6 +228,16 @@ def oracle(ctx, fn, xs, nums, sig_pool):
                     if r != f:
                         ctx.violation(dict(call=n, args=[x, s]), f"{n} differs from FLOOR for positive significance",
                                       impl=r, expected=f)
+            if s < 0 and x <= 0 and not isinstance(x, bool):
+                # negative significance with a number that is not positive: adjacent multiples around x (0 stays 0)
+                c = num(run_impl(fn['ceiling'], x, s))
+                f = num(run_impl(fn['floor'], x, s))
+                case = dict(call='ceiling/floor', args=[x, s])
+                if c is None or f is None or not (min(c, f) <= fx <= max(c, f)) or (c / fs).denominator != 1 \
+                        or (f / fs).denominator != 1 or abs(c - f) not in (0, abs(fs)) \
+                        or ((c == f) != ((fx / fs).denominator == 1)):
+                    ctx.violation(case, "CEILING/FLOOR with a negative significance: adjacent multiples around x violated",
+                                  impl=[f, c])
             if s < 0 < x:
                 for n in ('ceiling', 'floor'):
                     r = run_impl(fn[n], x, s)
